@@ -66,6 +66,7 @@ func directedNesting(c *ctx) {
 	kinds := []kind{
 		{"<b>", "</b>"}, {"<a href=\"http://x/\">", "</a>"}, {"<a>", "</a>"}, {"<u>", "</u>"}, {"<object>", "</object>"},
 		{"<my-el>", "</my-el>"}, {"<br>", ""}, {"<img>", ""}, {"<iframe>", "</iframe>"}, {"<my-x id=1>", "</my-x>"}, {"<span>", "</span>"},
+		{"<frameset>", "</frameset>"}, {"<object data=x>", "</object>"},
 	}
 	policies := [][]*bmx.Op{
 		{{Kind: "AE", Names: []string{"b", "br"}}, {Kind: "AA", Names: []string{"href"}, Scope: "E", ScopeEl: []string{"a"}}, {Kind: "AA", Names: []string{"src"}, Scope: "E", ScopeEl: []string{"img"}},
@@ -73,6 +74,9 @@ func directedNesting(c *ctx) {
 		{{Kind: "AE", Names: []string{"b", "br", "span"}}, {Kind: "AA", Names: []string{"href"}, Scope: "E", ScopeEl: []string{"a"}}, {Kind: "SK", Names: []string{"u", "span", "br"}},
 			{Kind: "AK", Names: []string{"object"}}, {Kind: "AA", Names: []string{"id"}, Scope: "G"}, {Kind: "SP", Flag: c.r.Intn(2) == 0}},
 		{{Kind: "AA", Names: []string{"id"}, Scope: "M", ScopeRe: bmx.NewRE(`^my-`)}, {Kind: "AE", Names: []string{"iframe", "object"}}, {Kind: "AA", Empty: true, Scope: "M", ScopeRe: bmx.NewRE(`^my-el$`)}},
+		// an element of the skip-content set that is allowed (with attributes, or by a pattern), inside disallowed skip-content elements
+		{{Kind: "AE", Names: []string{"b"}}, {Kind: "AA", Names: []string{"data"}, Scope: "E", ScopeEl: []string{"object"}}, {Kind: "SK", Names: []string{"u", "my-el"}},
+			{Kind: "AEM", Re: bmx.NewRE(`^my-`)}, {Kind: "AA", Names: []string{"href"}, Scope: "E", ScopeEl: []string{"a"}}},
 	}
 	depth := 3
 	if c.n > 20000 {
@@ -277,6 +281,32 @@ func directedC07(c *ctx) {
 			c.san(pid, pol, []byte(d))
 		}
 	}
+	// two element patterns that both match, each with its own value pattern for the same attribute;
+	// a scheme registered with a custom check and then plainly (the later call replaces the check)
+	for v := 0; v < 6; v++ {
+		pa, pb := bmx.NewRE(`^x-`), bmx.NewRE(`-wide$`)
+		ops := []*bmx.Op{
+			{Kind: "AA", Names: []string{"size"}, Re: bmx.NewRE(`^(small|medium)$`), Scope: "M", ScopeRe: pa},
+			{Kind: "AA", Names: []string{"size"}, Re: bmx.NewRE(`^(large|huge)$`), Scope: "M", ScopeRe: pb},
+			{Kind: "AA", Names: []string{"tone"}, Re: bmx.NewRE(`^[a-z]+$`), Scope: "M", ScopeRe: pa},
+			{Kind: "UC", Names: []string{"https"}, Cb: "host=example.org"},
+			{Kind: "US", Names: []string{"https", "mailto"}},
+			{Kind: "AA", Names: []string{"href"}, Scope: "E", ScopeEl: []string{"a"}},
+		}
+		if v%2 == 1 {
+			ops[0], ops[1] = ops[1], ops[0]
+		}
+		if v >= 3 {
+			ops[3], ops[4] = ops[4], ops[3] // custom check registered last: it stays
+		}
+		pid, pol := c.policy(ops)
+		for _, d := range []string{"<x-card-wide size=\"large\">c</x-card-wide>", "<x-card-wide size=\"small\">c</x-card-wide>",
+			"<x-card size=\"medium\" tone=\"warm\">c</x-card>", "<y-wide size=\"huge\">c</y-wide>",
+			"<x-a-wide size=\"huge\" tone=\"cold\">c<x-b size=\"small\">d</x-b></x-a-wide>",
+			"<a href=\"https://www.example.com/index.html\">home</a>", "<a href=\"https://example.org/\">org</a>", "<a href=\"mailto:a@example.org\">m</a>"} {
+			c.san(pid, pol, []byte(d))
+		}
+	}
 	pid, pol := c.shipped("@UGC")
 	g := bmx.NewDocGen(c.r, nil)
 	g.Els = strings.Fields("article aside figure section summary h1 h2 h3 hgroup br div hr p span wbr abbr cite code em mark s strong sub sup var b i pre small u rp rt ruby dl dt dd caption")
@@ -331,8 +361,23 @@ func directedC02(c *ctx) {
 			c.san(pid, pol, []byte("<my-x class>t</my-x><my-x>u</my-x><my-x class=aaa class=zzz id=1>v</my-x>"))
 		}
 	}
+	// data attributes: names around the documented shape data-*
+	for _, withClass := range []bool{false, true} {
+		ops := []*bmx.Op{{Kind: "AE", Names: []string{"b"}}, {Kind: "DA"}}
+		if withClass {
+			ops = append(ops, &bmx.Op{Kind: "AA", Names: []string{"class"}, Scope: "G"})
+		}
+		pid, pol := c.policy(ops)
+		for _, n := range dataAttrNames {
+			c.san(pid, pol, []byte("<b "+n+"=\"v\">t</b>"))
+		}
+	}
 	families["san"](c)
 }
+
+var dataAttrNames = []string{"data-a", "data-foo-bar", "data-", "data", "xdata-foo", ":data-id", "v-bind:data-id", "[attr.data-id]", "adata-x",
+	"data-xml", "data-xmlfoo", "data-a:b", "data-a;b", "data-adata-;x", "data-data-a", "data-A", "DATA-a", "data-é", "data-1", "data--", "data-a.b", "data-a_b",
+	"on\"data-x", "data-a<b", "data-a=b", "class", "dataset", "data-a/b"}
 
 // C10: every combination of style-rule sources (element, element pattern, global) for an
 // element that is declared by name or only matched by a pattern
@@ -377,6 +422,36 @@ func directedC10(c *ctx) {
 			pid, pol := c.policy(ops)
 			for _, st := range styles {
 				c.san(pid, pol, []byte("<"+el+" style=\""+st+"\" colspan=2>t</"+el+"><"+el+" style=\""+st+"\">u</"+el+">"))
+			}
+		}
+	}
+	// two element patterns with their own style rules: an element matching both is sanitised
+	// first, then elements matching only one (rules must not leak from one pattern to the other)
+	for v := 0; v < 4; v++ {
+		pa, pb := bmx.NewRE(`^x-`), bmx.NewRE(`-wide$`)
+		ops := []*bmx.Op{
+			{Kind: "AA", Names: []string{"style"}, Scope: "M", ScopeRe: bmx.NewRE(`^(x-|y-)`)},
+			{Kind: "AS", Names: []string{"color"}, Scope: "M", ScopeRe: pa},
+			{Kind: "AS", Names: []string{"width"}, Scope: "M", ScopeRe: pb},
+		}
+		if v%2 == 1 {
+			ops[1], ops[2] = ops[2], ops[1]
+		}
+		pid, pol := c.policy(ops)
+		for _, d := range []string{"<x-a-wide style=\"color: red; width: 1px\">b</x-a-wide>", "<x-a style=\"color: red; width: 1px\">a</x-a>",
+			"<y-wide style=\"color: red; width: 1px\">w</y-wide>", "<x-b-wide style=\"width: 2px; color: blue\">b</x-b-wide>", "<x-c style=\"width: 1px\">c</x-c>"} {
+			c.san(pid, pol, []byte(d))
+		}
+	}
+	// a property with neither matcher nor default handler as the only style rule, with style
+	// also allowed as an ordinary attribute: the style attribute is still governed by the style rules
+	for _, prop := range []string{"aspect-ratio", "gap", "colour"} {
+		for _, scope := range []string{"G", "E"} {
+			as := &bmx.Op{Kind: "AS", Names: []string{prop}, Scope: scope, ScopeEl: []string{"div"}}
+			aa := &bmx.Op{Kind: "AA", Names: []string{"style"}, Scope: scope, ScopeEl: []string{"div"}}
+			pid, pol := c.policy([]*bmx.Op{{Kind: "AE", Names: []string{"div"}}, aa, as})
+			for _, d := range []string{"<div style=\"" + prop + ": 16/9; position: fixed; width: expression(alert(1))\">t</div>", "<div style=\"position: fixed\">t</div>", "<div style=\"" + prop + ": 1\">t</div>"} {
+				c.san(pid, pol, []byte(d))
 			}
 		}
 	}
